@@ -124,7 +124,27 @@ fn run_case(seed: u64, idx: u64) -> CaseOut {
     for b in &builds {
         last_class = arg_class(b);
         match apply(style, b) {
-            Ok(s) => style = s,
+            Ok(s) => {
+                // "fewer than two tick strings or progress characters, progress characters of unequal width - are
+                // rejected with an explicit panic when the style is built"
+                let must_reject = match b {
+                    Build::TickChars(t) => t.chars().count() < 2,
+                    Build::TickStrings(v) => v.len() < 2,
+                    Build::ProgressChars(_) => last_class.ends_with(":mixed-width") || last_class.starts_with("progress_chars:0") || last_class.starts_with("progress_chars:1"),
+                    _ => false,
+                };
+                if must_reject {
+                    co.verdict = Verdict::Violated(Box::new(Violation {
+                        rule: "unrenderable-style-accepted".into(),
+                        features: vec![last_class.clone()],
+                        detail: format!("the builder accepted {b:?} ({last_class}), a configuration the statement says is rejected when the style is built"),
+                        witness,
+                        replay,
+                    }));
+                    return co;
+                }
+                style = s
+            }
             Err(_msg) => {
                 co.count("rejected_at_build_time", 1);
                 co.see("rejected_classes", fnv1a(last_class.as_bytes()));
